@@ -162,7 +162,7 @@ func init() {
 		Finish: func(st *Stats, cov map[string]any, tier string) string {
 			if tier == "thorough" {
 				cov["shape_literal_combinations_enumerated"] = len(c18Enum())
-				cov["explanation_exhaustive"] = "all single atoms over all 39 literals (second literal of between/in over all 39 as well for single atoms), all ordered pairs of atoms over the 12 literals of length <= 2; each with 60 (store, batch, mode, opaque-position) draws"
+				cov["explanation_exhaustive"] = "all single atoms over all 40 literals (the empty string included; second literal of between/in over all 40 as well for single atoms), all ordered pairs of atoms over the 13 literals of length <= 2; each with 60 (store, batch, mode, opaque-position) draws"
 			}
 			return ""
 		},
@@ -190,6 +190,9 @@ func c18Lits(maxLen int) []string {
 	return out
 }
 
+// c18LitsE: the literal space including the empty string (a legal key).
+func c18LitsE(maxLen int) []string { return append([]string{""}, c18Lits(maxLen)...) }
+
 var c18Shapes = []PinAtom{
 	{Shape: "eq"}, {Shape: "eq", Rev: true}, {Shape: "in"}, {Shape: "prefix"},
 	{Shape: "gt"}, {Shape: "gte"}, {Shape: "lt"}, {Shape: "lte"},
@@ -203,8 +206,8 @@ var (
 
 func c18Enum() []PinCase {
 	c18Once.Do(func() {
-		l3 := c18Lits(3)
-		l2 := c18Lits(2)
+		l3 := c18LitsE(3)
+		l2 := c18LitsE(2)
 		mk := func(s PinAtom, l1, l2 string) (PinAtom, bool) {
 			a := PinAtom{Shape: s.Shape, Rev: s.Rev}
 			switch s.Shape {
@@ -262,7 +265,7 @@ func c18Store(r *Rng) []KV {
 	for len(keys) < n {
 		k := pick(r, all)
 		if r.Chance(0.1) {
-			k = pick(r, []string{"0", "A", "d", "zz", "ab0", "b~", "aaaa0"})
+			k = pick(r, []string{"0", "A", "d", "zz", "ab0", "b~", "aaaa0", "", ""})
 		}
 		if !seen[k] {
 			seen[k] = true
@@ -287,6 +290,7 @@ func genC18(seed uint64, i int, tier string) *Scenario {
 		pc = e[(i/60)%len(e)]
 	} else {
 		lits := c18Lits(3)
+		lits = append(lits, "", "", "") // the empty string is a legal key and literal
 		mkAtom := func() PinAtom {
 			s := pick(r, c18Shapes)
 			a := PinAtom{Shape: s.Shape, Rev: s.Rev}
